@@ -601,6 +601,21 @@ impl VisitMut for Norm {
         visit_mut::visit_block_mut(self, b);
     }
 
+    fn visit_local_mut(&mut self, l: &mut Local) {
+        // N7g: `let Some(P) = OPT.map(|p| B) [else D]`: the `Some` pattern shows OPT is an Option, so the combinator
+        // is its definition: `match OPT { Some(p) => Some(B), None => None }`
+        if pat_is_some(&l.pat) {
+            if let Some(init) = &mut l.init {
+                if let Some(ne) = option_map_to_match(&init.expr) {
+                    let sp = l.let_token.span;
+                    *init.expr = ne;
+                    self.log("N7g-option-map-under-some-pattern", sp);
+                }
+            }
+        }
+        visit_mut::visit_local_mut(self, l);
+    }
+
     fn visit_expr_mut(&mut self, e: &mut Expr) {
         // pre-order rewrites that change the shape of sub-expressions
         if let Expr::Macro(em) = e {
@@ -609,6 +624,15 @@ impl VisitMut for Norm {
                 *e = ne;
                 // the produced expression is already normalised inside (operands were visited)
                 return;
+            }
+        }
+        if let Expr::Let(l) = e {
+            if pat_is_some(&l.pat) {
+                if let Some(ne) = option_map_to_match(&l.expr) {
+                    let sp = l.let_token.span;
+                    *l.expr = ne;
+                    self.log("N7g-option-map-under-some-pattern", sp);
+                }
             }
         }
         if let Expr::If(i) = e {
@@ -651,6 +675,10 @@ impl VisitMut for Norm {
                 if mutating { self.lvalue_depth += 1; }
                 self.visit_expr_mut(&mut mc.receiver);
                 if mutating { self.lvalue_depth -= 1; }
+                if mutating {
+                    // N14: `E[i].push(x)` in diverge mode: the place is fetched through hq_index_mut (out of range diverges)
+                    self.place_index_diverge(&mut mc.receiver);
+                }
                 let saved = self.lvalue_depth;
                 self.lvalue_depth = 0;
                 for a in mc.args.iter_mut() {
@@ -737,6 +765,16 @@ impl VisitMut for Norm {
                     }
                 }
                 self.n9c(f);
+                {
+                    // N9b (general form): `for P in EXPR` with EXPR: &Collection named by its token text => `for P in EXPR.iter()`
+                    let t: String = f.expr.to_token_stream().to_string().chars().filter(|c| !c.is_whitespace()).collect();
+                    if !matches!(&*f.expr, Expr::Path(_)) && self.iter_on.iter().any(|x| *x == t) {
+                        let sp = f.for_token.span;
+                        let inner = f.expr.clone();
+                        *f.expr = parse_quote!(#inner.iter());
+                        self.log("N9b-for-in-ref-expr", sp);
+                    }
+                }
                 if let Expr::Path(p) = &*f.expr {
                     let n = p.path.segments.iter().map(|s| s.ident.to_string()).collect::<Vec<_>>().join("::");
                     if self.iter_on.iter().any(|x| *x == n) {
@@ -829,6 +867,17 @@ impl VisitMut for Norm {
                         } else {
                             mc.method = Ident::new("unwrap", sp);
                             self.log("N3-unwrap_or_else-panic", sp);
+                        }
+                    }
+                    "unwrap_or_else" if mc.args.len() == 1 && matches!(&mc.args[0], Expr::Closure(c) if c.inputs.is_empty() && !body_has_return(&c.body)) => {
+                        // N7f: OPT.unwrap_or_else(|| D) => match OPT { Some(x) => x, None => D } (D stays lazily evaluated)
+                        if let Expr::Closure(c) = &mc.args[0] {
+                            let d = &c.body;
+                            let recv = &mc.receiver;
+                            let x = self.fresh("some");
+                            let ne: Expr = parse_quote!(match #recv { Some(#x) => #x, None => #d });
+                            *e = ne;
+                            self.log("N7f-unwrap_or_else", sp);
                         }
                     }
                     "collect" if mc.args.is_empty() && matches!(&*mc.receiver, Expr::MethodCall(i) if i.method == "into_iter" && i.args.is_empty()) => {
@@ -1289,6 +1338,35 @@ fn simplify_parens(e: Expr) -> Expr {
     }
 }
 
+fn pat_is_some(p: &Pat) -> bool {
+    match p {
+        Pat::TupleStruct(ts) => ts.path.is_ident("Some"),
+        _ => false,
+    }
+}
+
+fn option_map_to_match(e: &Expr) -> Option<Expr> {
+    if let Expr::MethodCall(mc) = e {
+        if mc.method == "map" && mc.args.len() == 1 {
+            if let Expr::Closure(c) = &mc.args[0] {
+                if c.inputs.len() == 1 && !body_has_return(&c.body) {
+                    let pat = match c.inputs[0].clone() {
+                        Pat::Type(pt) => *pt.pat,
+                        p => p,
+                    };
+                    if matches!(pat, Pat::Ident(_)) {
+                        let recv = &mc.receiver;
+                        let body = &c.body;
+                        let ne: Expr = parse_quote!(match #recv { Some(#pat) => Some(#body), None => None });
+                        return Some(ne);
+                    }
+                }
+            }
+        }
+    }
+    None
+}
+
 fn body_has_return(e: &Expr) -> bool {
     struct V(bool);
     impl<'ast> syn::visit::Visit<'ast> for V {
@@ -1302,16 +1380,34 @@ fn body_has_return(e: &Expr) -> bool {
     v.0
 }
 
-/// N11 (nested): the first statement, at any depth, whose token text starts with `anchor`
-pub fn find_stmt(b: &Block, anchor: &str, nth: usize) -> Option<Stmt> {
+/// N11 (nested): the nth statement, at any depth, whose token text starts with `anchor`; together with the `let`
+/// statements that precede it in the enclosing blocks (outermost first, source order) for N11b.
+pub fn find_stmt(b: &Block, anchor: &str, nth: usize) -> Option<(Stmt, Vec<Local>)> {
     let norm = |s: &str| s.chars().filter(|c| !c.is_whitespace()).collect::<String>();
     let a = norm(anchor);
     struct V {
         a: String,
         left: usize,
         found: Option<Stmt>,
+        stack: Vec<Vec<Local>>,
+        ctx: Vec<Local>,
     }
     impl<'ast> syn::visit::Visit<'ast> for V {
+        fn visit_block(&mut self, b: &'ast Block) {
+            self.stack.push(vec![]);
+            for st in &b.stmts {
+                if self.found.is_some() {
+                    break;
+                }
+                self.visit_stmt(st);
+                if self.found.is_none() {
+                    if let Stmt::Local(l) = st {
+                        self.stack.last_mut().unwrap().push(l.clone());
+                    }
+                }
+            }
+            self.stack.pop();
+        }
         fn visit_stmt(&mut self, st: &'ast Stmt) {
             if self.found.is_some() {
                 return;
@@ -1321,15 +1417,100 @@ pub fn find_stmt(b: &Block, anchor: &str, nth: usize) -> Option<Stmt> {
                 self.left -= 1;
                 if self.left == 0 {
                     self.found = Some(st.clone());
+                    self.ctx = self.stack.iter().flatten().cloned().collect();
                     return;
                 }
             }
             syn::visit::visit_stmt(self, st);
         }
     }
-    let mut v = V { a, left: nth.max(1), found: None };
+    let mut v = V { a, left: nth.max(1), found: None, stack: vec![], ctx: vec![] };
     syn::visit::Visit::visit_block(&mut v, b);
-    v.found
+    let ctx = std::mem::take(&mut v.ctx);
+    v.found.map(|f| (f, ctx))
+}
+
+/// identifiers bound by a pattern
+pub fn pat_idents(p: &Pat, out: &mut Vec<String>) {
+    struct V<'a>(&'a mut Vec<String>);
+    impl<'ast, 'a> syn::visit::Visit<'ast> for V<'a> {
+        fn visit_pat_ident(&mut self, p: &'ast PatIdent) {
+            self.0.push(p.ident.to_string());
+            if let Some((_, sub)) = &p.subpat {
+                self.visit_pat(sub);
+            }
+        }
+    }
+    syn::visit::Visit::visit_pat(&mut V(out), p);
+}
+
+/// (single-segment lower-case path expressions used, identifiers bound by any pattern inside)
+fn used_and_bound(stmts: &[Stmt]) -> (Vec<String>, Vec<String>) {
+    struct V {
+        used: Vec<String>,
+        bound: Vec<String>,
+    }
+    impl<'ast> syn::visit::Visit<'ast> for V {
+        fn visit_expr_path(&mut self, p: &'ast ExprPath) {
+            if p.qself.is_none() && p.path.segments.len() == 1 {
+                let n = p.path.segments[0].ident.to_string();
+                if n.chars().next().map(|c| c.is_lowercase() || c == '_').unwrap_or(false) {
+                    self.used.push(n);
+                }
+            }
+        }
+        fn visit_pat_ident(&mut self, p: &'ast PatIdent) {
+            self.bound.push(p.ident.to_string());
+            if let Some((_, sub)) = &p.subpat {
+                self.visit_pat(sub);
+            }
+        }
+        fn visit_macro(&mut self, m: &'ast Macro) {
+            for t in m.tokens.clone() {
+                if let proc_macro2::TokenTree::Ident(i) = t {
+                    let n = i.to_string();
+                    if n.chars().next().map(|c| c.is_lowercase()).unwrap_or(false) {
+                        self.used.push(n);
+                    }
+                }
+            }
+        }
+    }
+    let mut v = V { used: vec![], bound: vec![] };
+    for s in stmts {
+        syn::visit::Visit::visit_stmt(&mut v, s);
+    }
+    (v.used, v.bound)
+}
+
+/// N11b: the `let` statements of the enclosing blocks that define variables the slice uses but that are neither
+/// bound inside the slice nor parameters of the slice signature are carried into the slice (transitively, source order).
+pub fn needed_lets(slice: &[Stmt], ctx: &[Local], params: &[String]) -> Vec<Local> {
+    let (used, bound) = used_and_bound(slice);
+    let mut needed: Vec<String> = used.into_iter().filter(|u| !bound.contains(u) && !params.contains(u)).collect();
+    let mut take = vec![false; ctx.len()];
+    let mut changed = true;
+    while changed {
+        changed = false;
+        for (i, l) in ctx.iter().enumerate().rev() {
+            if take[i] {
+                continue;
+            }
+            let mut ids = vec![];
+            pat_idents(&l.pat, &mut ids);
+            if ids.iter().any(|x| needed.contains(x) && !params.contains(x)) {
+                take[i] = true;
+                changed = true;
+                let (u2, _) = used_and_bound(&[Stmt::Local(l.clone())]);
+                for u in u2 {
+                    if !needed.contains(&u) && !params.contains(&u) {
+                        needed.push(u);
+                    }
+                }
+            }
+        }
+    }
+    ctx.iter().zip(take).filter(|(_, t)| *t).map(|(l, _)| l.clone()).collect()
 }
 
 /// N11: keep a contiguous statement range of the top-level block, named by two anchor strings
